@@ -300,6 +300,50 @@ def judge_vertex_shape(chk, it, rcirc):
                 chk.violation(name, dict(desc, center=np.array(b.center).tolist(), radius=float(b.radius), exact_radius=rr))
             radius_getter(chk, sh, name, float(b.radius), desc)
     chk.sample(dict(cls=type(sh).__name__, kind=it["kind"], nverts=len(V), cyclic=it["cyc"], tangential=it["tan"]))
+    balls_move_with_the_shape(chk, sh, dim, size, desc)
+
+
+def balls_move_with_the_shape(chk, sh, dim, size, desc):
+    """every ball is asked for, the shape is then moved (centroid assignment) and every ball is asked for again: each must have moved by the
+    same displacement with its radius unchanged - an answer remembered from before the move is no longer the shape's ball"""
+    names = [ballname(dim, b) for b in ("minimal_bounding", "minimal_centered_bounding", "maximal_bounded", "maximal_centered_bounded")]
+    names = [n for n in names if hasattr(type(sh), n)]
+
+    def read():
+        out = {}
+        for n in names:
+            st, b = C.excname(lambda: getattr(sh, n))
+            out[n] = (st, None) if st != "ok" else ("ok", (np.array(b.center, float), float(b.radius)))
+        return out
+
+    st0, c0 = C.excname(lambda: np.array(sh.centroid, float))
+    if st0 != "ok":
+        return
+    before = read()
+    t = np.array([2.5, -1.25, 0.75]) * max(size, 2.0 ** -40)
+    st, _ = C.excname(setattr, sh, "centroid", c0 + t)
+    if st != "ok":
+        return          # (setters are judged by C08)
+    disp = np.array(sh.centroid, float) - c0
+    after = read()
+    chk.count("balls-move-with-the-shape")
+    for n in names:
+        (sa, va), (sb, vb) = before[n], after[n]
+        if sa != sb:
+            chk.violation(n + "-after-move", dict(desc, before=sa, after=sb, displacement=disp.tolist())); continue
+        if sa != "ok":
+            continue
+        # (a remembered ball is off by the whole displacement, ~3 sizes; rounding of thin shapes far from the origin stays far below 1e-6)
+        ok = np.linalg.norm(vb[0] - va[0] - disp) <= 1e-6 * (size + np.linalg.norm(c0) + np.linalg.norm(disp)) and abs(vb[1] - va[1]) <= 1e-6 * size
+        if not ok and n.startswith("minimal_bounding"):
+            # (recorded finding miniball-randomised-solver: judged on re-evaluation)
+            for _ in range(3):
+                st2, b2 = C.excname(lambda: getattr(sh, n))
+                if st2 == "ok" and np.linalg.norm(np.array(b2.center, float) - va[0] - disp) <= 1e-6 * (size + np.linalg.norm(c0) + np.linalg.norm(disp)) and abs(float(b2.radius) - va[1]) <= 1e-6 * size:
+                    ok = True; chk.count("known:miniball(re-evaluation agrees)"); break
+        if not ok:
+            chk.violation(n + "-after-move", dict(desc, centre_before=va[0].tolist(), radius_before=va[1], centre_after=vb[0].tolist(), radius_after=vb[1],
+                                                  displacement=disp.tolist(), what="the ball did not move with the shape"))
 
 
 def radius_getter(chk, sh, name, r, desc):
